@@ -211,6 +211,7 @@ def run(plan, stats):
         try:
             canon_models.append(parse_script('\n'.join(lines) + '\n'))
         except BareScriptParserError:
+            stats.c['generated_program_rejected_by_the_parser'] += 1
             return RunResult([], digest_of('invalid-program'))
     canon_exprs = {}
     for c in plan['clients']:
